@@ -468,7 +468,8 @@ def handle (line : String) : String :=
             | _ => true
           if !modelled then "SKIP unmodelled" else
           let m := showOB (Cust.detEval (fun _ _ _ => false) d raw l)
-          let sp := if goRes == "PANIC" || goRes == "TIMEOUT" then s!" ; SPEC C01:detector-{goRes}" else ""
+          let sp := if goRes == "PANIC" || goRes == "TIMEOUT" then s!" ; SPEC C01:detector-{goRes}"
+                    else if goRes == "W" then " ; SPEC C17:detector-writes-into-its-input ; SPEC C04:input-buffer-modified ; SPEC C01:detector-writes-into-its-input" else ""
           if m == goRes then "OK" else s!"DIFF det:{name} model={m}" ++ sp
       | _, _ => "BAD args"
     | ["walk", hx, lim, verd, toks, inst] =>
@@ -551,6 +552,17 @@ def handle (line : String) : String :=
               | none => ""
             else ""
           | none => ""
+        -- C09 through Detect: a result in the JSON family means the examined header is an accepted document when the
+        -- whole input was examined (limit 0, or input shorter than the limit), a viable prefix of one otherwise
+        let sp9 := match parseGoWalk goRes with
+          | some (gc, _) =>
+            let leaf : Bytes := (gc.head?.map (·.1)).getD []
+            if [ofString "application/json", ofString "application/geo+json", ofString "model/gltf+json"].contains leaf then
+              if l == 0 || raw.length < l then
+                (if Spec.J.relaxedDoc h then "" else "SPEC C09:malformed-document-reported-as-json")
+              else (if Spec.J.viable h then "" else "SPEC C09:truncated-input-not-a-prefix-of-a-document")
+            else ""
+          | none => ""
         -- C11 through Detect: the charset attached to a text/plain result, judged on the examined header
         let sp11 := match parseGoWalk goRes with
           | some (_, gleaf) =>
@@ -577,7 +589,10 @@ def handle (line : String) : String :=
           if mc != goChain then s!"DIFF closed-detect chain model={mc}"
           else if (HtmlTok.startTags h).isNone || !isAsciiBytes ccs then ""
           else if mc ++ " " ++ bhex ms == goRes then "" else s!"DIFF closed-detect string model={bhex ms}"
-        let all := [d1, d2, dxi, dht, dcl, sp, sp8, sp11].filter (· != "")
+        -- a detector that wrote into its input (harness verdict `W`): what the following detectors see — and what
+        -- the caller's buffer holds afterwards — then depends on how far the walk got
+        let wr := if vs.contains 'W' then "SPEC C17:detector-writes-into-its-input ; SPEC C04:input-buffer-modified ; SPEC C03:detector-writes-into-its-input ; SPEC C01:detector-writes-into-its-input" else ""
+        let all := [d1, d2, dxi, dht, dcl, sp, sp8, sp9, sp11, wr].filter (· != "")
         if all.isEmpty then "OK" else String.intercalate " ; " all
       | _, _, _, _ => "BAD args"
     | ["jparse", q, hx] =>
@@ -704,6 +719,37 @@ def handle (line : String) : String :=
           if all.isEmpty then "OK" else String.intercalate " ; " all
       | some _, none => "SPEC C14:tree-invariant-broken(pointer-to-unknown-node) ; SPEC C03:tree-invariant-broken(pointer-to-unknown-node)"
       | none, _ => if goRes == "BADSCRIPT" then "OK" else "BAD script"
+    | ["isx", nh, _sh] =>
+      -- any string; the normalised type comes from the real mime.ParseMediaType (oracle)
+      match unhex nh with
+      | some name =>
+        if goRes == "NOLOOKUP" then "SPEC C15:registered-name-does-not-resolve" else
+        match Gen.builtin.lookup (fun i => i.mime == name || i.aliases.contains name), goRes.splitOn " " with
+        | some path, [bits, normh] =>
+          match path.getLast?, (if normh == "-" then some [] else unhex normh) with
+          | some node, some norm =>
+            let wantIs := norm == node.mime || node.aliases.contains norm
+            let wantEq := norm == MT.typeOf name
+            let want := (if wantIs then "T" else "F") ++ (if wantEq then "T" else "F")
+            if bits == want then "OK"
+            else if bits.toList.head? != want.toList.head? then
+              (if wantIs then "SPEC C15:is-false-for-own-type-or-alias" else "SPEC C15:is-true-for-foreign-type")
+            else "SPEC C15:equalsany-not-by-normalised-type"
+          | _, _ => "BAD isx"
+        | _, _ => "BAD isx"
+      | none => "BAD args"
+    | ["eqanyx", _sh, _th] =>
+      match goRes.splitOn " " with
+      | [bit, na, nb] => if (bit == "T") == (na == nb) then "OK" else "SPEC C15:equalsany-not-by-normalised-type"
+      | _ => "BAD eqanyx"
+    | ["bigslice", _lim, _extra, _hx] =>
+      match goRes.splitOn " " with
+      | [m, d] => if m == d then "OK" else "SPEC C07:only-the-first-limit-bytes-count(4GiB-slice) ; SPEC C05:large-input-header ; SPEC C01:large-input-header"
+      | _ => if goRes == "NOMAP" then "SKIP no 4 GiB mapping" else "BAD bigslice"
+    | ["bigfile", _lim, _extra, _hx] =>
+      match goRes.splitOn " " with
+      | [e, m, d] => if e == "nil" && m == d then "OK" else "SPEC C05:file-differs-from-bytes(4GiB-file) ; SPEC C07:only-the-first-limit-bytes-count(4GiB-file)"
+      | _ => if goRes == "NOTEMP" then "SKIP no sparse file" else "BAD bigfile"
     | ["resext", _hx, _lim] => resextJudge goRes
     | ["resext1", _hx, _lim] => resextJudge goRes
     | ["xlookup", script, nm] =>
